@@ -151,4 +151,126 @@ theorem anonymize_value_tie (x : Ext) (fs : List Regex.Re) (salt raw : List Char
                 | ok c => simp only []; cases Juniper.decrypt c <;> rfl
               all_goals (generalize Juniper.decrypt _ = r; cases r <;> rfl)
 
+/-! ## `replace_matching_item` -/
+section rmi
+open Secrets Regex
+variable (x : Ext) (fs : List Re) (salt : List Char)
+
+/-- what one round of the inner loop does, in terms of the model's `applyOne` -/
+def innerSpec {ρ : Type} (e : (Re × Option Nat × Option Nat) × String) (st : Bool × List LogRec × List Char) (lk : Lookup) :
+    Except Err (Py.Step ρ (Bool × List LogRec × List Char) × Lookup) :=
+  match applyOne x fs salt e st.2.2 lk with
+  | .error err => .error err
+  | .ok .noMatch => .ok (Py.Step.next (st.1, st.2.1, st.2.2), lk)
+  | .ok (.scrubbed out w) => .ok (Py.Step.brk (true, st.2.1 ++ [w], out), lk)
+  | .ok (.replaced out lk') => .ok (Py.Step.next (true, st.2.1, out), lk')
+
+/-- a loop whose rounds are `innerSpec` is the model's `applyGroup`, followed by the rest -/
+theorem inner_loop {ρ : Type} (es : List ((Re × Option Nat × Option Nat) × String))
+    (body : (Re × Option Nat × Option Nat) × String → Bool × List LogRec × List Char →
+      Py.L (Py.Step ρ (Bool × List LogRec × List Char)))
+    (hbody : ∀ e st lk, body e st lk = innerSpec x fs salt e st lk)
+    (found : Bool) (logs : List LogRec) (line : List Char)
+    (k : Bool × List LogRec × List Char → Py.L ρ) (lk : Lookup) :
+    Py.forLoopB (m := Py.L) es (found, logs, line) body k lk
+    = (match applyGroup x fs salt es line lk found logs with
+       | .error e => .error e
+       | .ok (line', lk', found', logs') => k (found', logs', line') lk') := by
+  induction es generalizing found logs line lk with
+  | nil => rfl
+  | cons e es ih =>
+    simp only [Py.forLoopB, applyGroup, Py.lbind_apply, hbody, innerSpec]
+    cases h1 : applyOne x fs salt e line lk with
+    | error err => rfl
+    | ok r =>
+      cases r with
+      | noMatch => exact ih _ _ _ _
+      | scrubbed out w => rfl
+      | replaced out lk' => exact ih _ _ _ _
+
+/-- what one round of the outer loop does, in terms of the model's `applyGroup` -/
+def outerSpec (g : List ((Re × Option Nat × Option Nat) × String)) (st : List LogRec × List Char) (lk : Lookup) :
+    Except Err (Py.Step (List Char × List LogRec) (List LogRec × List Char) × Lookup) :=
+  match applyGroup x fs salt g st.2 lk false st.1 with
+  | .error err => .error err
+  | .ok (line', lk', found, logs') => .ok (if found then Py.Step.brk (logs', line') else Py.Step.next (logs', line'), lk')
+
+theorem outer_loop (gs : List (List ((Re × Option Nat × Option Nat) × String)))
+    (body : List ((Re × Option Nat × Option Nat) × String) → List LogRec × List Char →
+      Py.L (Py.Step (List Char × List LogRec) (List LogRec × List Char)))
+    (hbody : ∀ g st lk, body g st lk = outerSpec x fs salt g st lk)
+    (logs : List LogRec) (line : List Char)
+    (k : List LogRec × List Char → Py.L (List Char × List LogRec)) (lk : Lookup) :
+    Py.forLoopB (m := Py.L) gs (logs, line) body k lk
+    = (match applyGroups x fs salt gs line lk logs with
+       | .error e => .error e
+       | .ok (line', lk', logs') => k (logs', line') lk') := by
+  induction gs generalizing logs line lk with
+  | nil => rfl
+  | cons g gs ih =>
+    simp only [Py.forLoopB, applyGroups, Py.lbind_apply, hbody, outerSpec]
+    cases h1 : applyGroup x fs salt g line lk false logs with
+    | error err => rfl
+    | ok r =>
+      obtain ⟨line', lk', found, logs'⟩ := r
+      cases found with
+      | true => rfl
+      | false => exact ih _ _ _
+
+/-- **`replace_matching_item` as written in the source is the model's `replaceMatchingItem`**: the whole control structure (split and
+re-join of the line, enclosing text of the line, first group with a match wins, every pattern of that group applied to what the
+previous one wrote, `None` index scrubs and ends the group, `prefix + _anonymize_value(group n)` substituted for every match) is read
+from the source text; for every group table, salt, line and lookup table. -/
+theorem replace_matching_item_tie (groups : List (List ((Re × Option Nat × Option Nat) × String))) (input : List Char) (lk : Lookup) :
+    Src.replace_matching_item x fs groups input salt lk =
+      (match replaceMatchingItem x fs groups salt input lk with
+       | .error e => .error e
+       | .ok (out, lk', logs) => .ok ((out, logs), lk')) := by
+  unfold Src.replace_matching_item replaceMatchingItem
+  simp only [extract_tie]
+  generalize splitLine x.isSpace input = sp
+  obtain ⟨leading, words, trailing⟩ := sp
+  simp only []
+  generalize extractEnclosing ((joinSp words).length + 1) (joinSp words) leading trailing = ee
+  obtain ⟨ld, body0, tr⟩ := ee
+  simp only []
+  rw [outer_loop x fs salt]
+  · cases applyGroups x fs salt groups body0 lk [] with
+    | error e => rfl
+    | ok r => obtain ⟨o, l, g⟩ := r; rfl
+  · intro g st lk1
+    obtain ⟨logs, line⟩ := st
+    simp only [outerSpec]
+    rw [inner_loop x fs salt]
+    · cases applyGroup x fs salt g line lk1 false logs with
+      | error e => rfl
+      | ok r =>
+        obtain ⟨l', k', f', g'⟩ := r
+        cases f' <;> rfl
+    · intro e st lk2
+      obtain ⟨⟨re, num, pfx⟩, txt⟩ := e
+      obtain ⟨found, logs2, line2⟩ := st
+      simp only [innerSpec, applyOne, Py.lbind_apply, Py.searchL]
+      cases hs : search re line2 with
+      | oof => rfl
+      | none => rfl
+      | ok m =>
+        cases m with
+        | none => rfl
+        | some mt =>
+          simp only [Py.lmpure_apply]
+          cases num with
+          | none =>
+            simp only [Py.lbind_apply, Py.subL]
+            cases hsub : sub re (fun _ => scrubbedMessage) line2 <;> rfl
+          | some n =>
+            simp only [Py.lbind_apply, anonymize_value_tie]
+            cases hav : anonymizeValue x fs salt ((mt.group n).getD []) lk2 with
+            | error err => rfl
+            | ok p =>
+              obtain ⟨av, lk'⟩ := p
+              simp only [Py.subL]
+              cases hsub : sub re (fun _ => (match pfx with | some p => (mt.group p).getD [] | none => []) ++ av) line2 <;> rfl
+end rmi
+
 end Netconan.SrcTie
